@@ -8,7 +8,7 @@ cd "$(dirname "$0")/.." || exit 2
 P=$1; PFX=${PFX:-seed3}; WT=/tmp/${PFX}_$P; TIER=${TIER:-quick}; V=/tmp/ev_${PFX}_$P
 rm -rf $V; mkdir -p $V; git ls-files | rsync -a --files-from=- . $V/; rsync -a lean/.lake $V/lean/
 SO=/repo/ethosu/mlw_codec.cpython-312-x86_64-linux-gnu.so
-git -C $WT checkout -q -- . ; git -C $WT clean -fdq -e '*.so'; cp $SO $WT/ethosu/
+git -C $WT checkout -q -- . 2>/dev/null || { git -C /repo worktree add -q --detach $WT HEAD; }; git -C $WT clean -fdq -e '*.so'; cp $SO $WT/ethosu/
 for OUT in /tmp/${PFX}_${P}_out/m*; do
   [ -f $OUT/patch.diff ] || continue
   M=$(basename $OUT)
